@@ -54,4 +54,65 @@ pub mod rustix {
         #[verifier::external_body]
         pub fn read<Fd: std::os::fd::AsFd>(fd: Fd, buf: &mut [u8]) -> (r: Result<usize, Errno>) { unimplemented!() }
     }
+    pub mod fs {
+        use vstd::prelude::*;
+        use crate::ext::fd_raw;
+        use crate::rustix::io::Errno;
+        /// file status flags as a bit set (stand-in for the bitflags type rustix::fs::OFlags)
+        #[derive(Clone, Copy, PartialEq, Eq)]
+        pub struct OFlags { pub bits: u32 }
+        impl vstd::std_specs::cmp::PartialEqSpecImpl for OFlags {
+            open spec fn obeys_eq_spec() -> bool { true }
+            open spec fn eq_spec(&self, other: &OFlags) -> bool { *self == *other }
+        }
+        impl OFlags {
+            pub const NONBLOCK: OFlags = OFlags { bits: 0x800 };
+            pub open spec fn has(self, o: OFlags) -> bool { (self.bits & o.bits) == o.bits }
+            #[verifier::external_body]
+            pub fn contains(&self, o: OFlags) -> (r: bool) ensures r == self.has(o), { unimplemented!() }
+        }
+        impl vstd::std_specs::ops::BitOrSpecImpl for OFlags {
+            open spec fn obeys_bitor_spec() -> bool { true }
+            open spec fn bitor_req(self, rhs: OFlags) -> bool { true }
+            open spec fn bitor_spec(self, rhs: OFlags) -> OFlags { OFlags { bits: self.bits | rhs.bits } }
+        }
+        impl std::ops::BitOr for OFlags {
+            type Output = OFlags;
+            #[verifier::external_body]
+            fn bitor(self, rhs: OFlags) -> (r: OFlags) { unimplemented!() }
+        }
+        impl vstd::std_specs::ops::BitAndSpecImpl for OFlags {
+            open spec fn obeys_bitand_spec() -> bool { true }
+            open spec fn bitand_req(self, rhs: OFlags) -> bool { true }
+            open spec fn bitand_spec(self, rhs: OFlags) -> OFlags { OFlags { bits: self.bits & rhs.bits } }
+        }
+        impl std::ops::BitAnd for OFlags {
+            type Output = OFlags;
+            #[verifier::external_body]
+            fn bitand(self, rhs: OFlags) -> (r: OFlags) { unimplemented!() }
+        }
+        impl vstd::std_specs::ops::NotSpecImpl for OFlags {
+            open spec fn obeys_not_spec() -> bool { true }
+            open spec fn not_req(self) -> bool { true }
+            open spec fn not_spec(self) -> OFlags { OFlags { bits: !self.bits } }
+        }
+        impl std::ops::Not for OFlags {
+            type Output = OFlags;
+            #[verifier::external_body]
+            fn not(self) -> (r: OFlags) { unimplemented!() }
+        }
+        /// the status flags of the open file behind fd, as fcntl(F_GETFL) reports them (ghost; kernel state)
+        pub uninterp spec fn flags_of(fd: int) -> OFlags;
+        pub uninterp spec fn may_setfl(fd: int, flags: OFlags) -> bool;
+        pub uninterp spec fn w_setfl(fd: int, flags: OFlags) -> bool;
+        #[verifier::external_body]
+        pub fn fcntl_getfl<Fd: std::os::fd::AsFd>(fd: Fd) -> (r: Result<OFlags, Errno>)
+            ensures r matches Ok(f) ==> f == flags_of(fd_raw(&fd)),
+        { unimplemented!() }
+        #[verifier::external_body]
+        pub fn fcntl_setfl<Fd: std::os::fd::AsFd>(fd: Fd, flags: OFlags) -> (r: Result<(), Errno>)
+            requires may_setfl(fd_raw(&fd), flags),
+            ensures r is Ok ==> w_setfl(fd_raw(&fd), flags),
+        { unimplemented!() }
+    }
 }
